@@ -638,6 +638,91 @@ def lenient_encode(text, enc):
             pass
     return out
 
+# ------------------------------------------------------------------ loading a file with a declared charset
+
+LOADER_CONTENTS = [b'', b'abc', b'A' * 300, b'a.b', b'.xn--a', b'x.xn--a b', b'a.xn--bcher-kva.x', b'.xn--a-', b'x.xn--' + b'z' * 70,
+                   b'\\x', b'\\N{', b'\\u12', b'\\', b'abc-def', b'-', b'+', b'+-', b'~{', b'\x1b$', b'\x1b$)C', b'\x0eabc',
+                   bytes(range(128)), b'\x80', b'\xff' * 5, b'a\xe9b', b'\x00' * 3, b'begin 666 x\n', b'=\n']
+
+def raw_decode(data, name):
+    """what `data.decode(name)` does, asked directly: wire form of RawDecode"""
+    try:
+        r = data.decode(name)
+    except UnicodeDecodeError as exc:
+        return f'D{exc.start:x}.{exc.end:x}'
+    except UnicodeError:
+        return 'U'
+    except Exception:
+        return 'O'
+    return 'T' + hexchars(r) if isinstance(r, str) else 'O'
+
+def impl_loader(data, name):
+    E = mods()[0]
+    try:
+        r = E.decode(data, name)
+    except UnicodeDecodeError as exc:
+        return f'ude {exc.start} {exc.end}'
+    except AttributeError as exc:
+        # the tree has no encodings.decode: the loaders call bytes.decode directly
+        try:
+            r = data.decode(name)
+        except UnicodeDecodeError as exc2:
+            return f'ude {exc2.start} {exc2.end}'
+        except Exception:
+            return 'crash'
+    except Exception:
+        return 'crash'
+    return 'ok ' + hexchars(r) if isinstance(r, str) else 'crash'
+
+def po_file(charset, body):
+    return (b'msgid ""\nmsgstr ""\n"Project-Id-Version: x 1\\n"\n"Language: de\\n"\n"MIME-Version: 1.0\\n"\n'
+            b'"Content-Type: text/plain; charset=' + charset.encode('ascii', 'replace') + b'\\n"\n"Content-Transfer-Encoding: 8bit\\n"\n\n'
+            b'msgid "a"\nmsgstr "' + body + b'"\n')
+
+def falsify_loader(chk, names):
+    """every codec the tool classifies ASCII-compatible must load a file: text, or `broken-encoding`, never a crash"""
+    import tempfile, shutil
+    import checker_harness as H
+    E = mods()[0]
+    cex = Cex()
+    stats = collections.Counter()
+    compat = {}
+    for n in names:
+        if impl_ascii(1, n) == '1':
+            compat.setdefault(lookup_name(n) or n, n)
+    transforming = set()
+    for codec, n in sorted(compat.items()):
+        for data in LOADER_CONTENTS + [d for c, d in CORPUS_BYTES if c == 'LOADER']:
+            out = impl_loader(data, n)
+            stats[out.split(' ')[0]] += 1
+            if out == 'crash':
+                cex.append({'kind': 'loader-crash', 'key': f'loader:{codec}', 'charset': n, 'bytes': data.hex(), 'raw': raw_decode(data, n),
+                            'replay': f'bytes.fromhex({data.hex()!r}) loaded with charset={n} (lib.polib4us.Codecs.open / lib.moparser)'})
+            elif out.startswith('ok') and data.isascii() and out != 'ok ' + hexchars(data.decode('ascii')):
+                transforming.add(codec)
+    # end to end: the real Checker.check() on files on disk
+    d = tempfile.mkdtemp(prefix='i18n-verif-c20.')
+    try:
+        for codec, n in sorted(compat.items()):
+            bodies = [b'x.xn--a', b'\\056\\170\\156\\055\\055\\141'] if codec in ('idna', 'punycode') or chk.rng.random() < 0.15 else []
+            for body in bodies:
+                path = os.path.join(d, 't.po')
+                with open(path, 'wb') as f:
+                    f.write(po_file(n, body))
+                try:
+                    c, calls = H.make_checker(path)
+                    c.check()
+                    stats['e2e:ok'] += 1
+                except Exception as exc:
+                    stats['e2e:crash'] += 1
+                    cex.append({'kind': 'check-crash-on-load', 'key': f'loader-e2e:{codec}', 'charset': n, 'body': body.hex(),
+                                'observed': f'{type(exc).__name__}: {exc}', 'replay': 'i18nspector on a PO file with this charset and msgstr body'})
+    finally:
+        shutil.rmtree(d, ignore_errors=True)
+    chk.coverage.setdefault('falsifier', {})['loader'] = dict(stats)
+    chk.coverage['ascii_compatible_by_the_probe_but_transforming_ascii_text'] = sorted(transforming)
+    return cex
+
 # ------------------------------------------------------------------ correspondence streams
 
 CORPUS_BYTES = []
@@ -799,6 +884,17 @@ def build_streams(chk, names, sizes):
                 rounds = [(r[0] if r[0] is not None else 0,) + r[1:] for r in rounds]
                 lines.append(f'charset encloop {len(t)} 60 {script_text(rounds)}'); outs.append(out)
     fam['loop-real'] = (lines, outs)
+    # ---- encodings.decode, the decode of every loader
+    lines, outs = [], []
+    seen_codecs = {}
+    for n in names:
+        c = lookup_name(n)
+        if c is not None and c not in seen_codecs and usable_text_codec(n):
+            seen_codecs[c] = n
+    for c, n in sorted(seen_codecs.items()):
+        for data in LOADER_CONTENTS + [d for cc, d in CORPUS_BYTES if cc == 'LOADER']:
+            lines.append(f'charset loader {len(data)} {raw_decode(data, n)}'); outs.append(impl_loader(data, n))
+    fam['loader'] = (lines, outs)
     # ---- EUC-TW: the structural model against the tool's codec; the CNS tables are asked of iconv unit by unit
     lines, outs = [], []
     if R.ok and R.cd('UTF-32LE', 'EUC-TW') is not None:
